@@ -148,8 +148,9 @@ C14_Failed(ss, J, res) ==
         ne    == SubSeq(res, 1, m)                 \* claimed non-empty part
         tail  == SubSeq(res, m + 1, Len(res))
         tot   == Total(ss, J, ne)
-    IN (IF \A k \in 1..Len(res) : res[k] \in 1..n THEN {} ELSE {"members_are_input_segments"})
-     \cup (IF (\A k \in 1..Len(ne) : ne[k] \in NE) /\ (\A k \in 1..Len(tail) : tail[k] \in EM)
+    IN IF ~(\A k \in 1..Len(res) : res[k] \in 1..n) THEN {"members_are_input_segments"}    \* (the other clauses index ss)
+       ELSE
+        (IF (\A k \in 1..Len(ne) : ne[k] \in NE) /\ (\A k \in 1..Len(tail) : tail[k] \in EM)
            THEN {} ELSE {"nonempty_part_first_then_empties"})
      \cup (IF \A a, b \in 1..Len(ne) : a # b => ne[a] # ne[b] THEN {} ELSE {"each_segment_at_most_once"})
      \cup (IF SeqToSet(tail) = EM /\ Len(tail) = Cardinality(EM) THEN {} ELSE {"empty_segments_passed_through"})
